@@ -1188,6 +1188,60 @@ def rule_nodup(ctx):
     return rr
 
 
+def rule_allvalues(ctx):
+    rr = RuleResult('C06', 'C06.allvalues', 'DEP',
+                    'a reference operator hands on every value block of its '
+                    'operands, not a selection by area name', floor=3)
+    from ..util import with_helpers
+    p = ctx.project
+    rc = p.cls(RANGES, 'Ranges')
+    for name in ('__add__', '__or__', '__and__', '__sub__'):
+        f = rc.methods.get(name)
+        if f is None:
+            continue
+        fs = with_helpers(ctx, f)
+        if not any(isinstance(n, ast.Attribute) and n.attr == 'values'
+                   for g in fs for n in own_nodes(g)):
+            continue
+        rr.instances += 1
+        sel = None
+        for g in fs:
+            for n in own_nodes(g):
+                # selector(keys, mapping) / {k: m[k] for k in names if k in m}
+                # applied to the operands' value blocks
+                if isinstance(n, ast.Call) and call_name(n) == 'selector' and \
+                        len(n.args) >= 2 and any(
+                        isinstance(x, ast.Attribute) and x.attr == 'values'
+                        for a in n.args[1:] for x in ast.walk(a)):
+                    sel = (g, n)
+                elif isinstance(n, ast.DictComp) and n.generators and any(
+                        isinstance(x, ast.Attribute) and x.attr == 'ranges'
+                        for x in ast.walk(n.generators[0].iter)) and any(
+                        isinstance(x, ast.Attribute) and x.attr == 'values'
+                        for x in ast.walk(n.value)):
+                    sel = (g, n)
+                elif isinstance(n, ast.DictComp) and any(
+                        g_.ifs for g_ in n.generators) and any(
+                        isinstance(x, ast.Attribute) and x.attr == 'values'
+                        for g_ in n.generators for x in ast.walk(g_.iter)):
+                    # {k: v for k, v in <all blocks>.items() if k in names}
+                    sel = (g, n)
+        if sel is not None:
+            g, n = sel
+            rr.fail(key_of(f, 'value blocks selected by area name'),
+                    'Ranges.%s keeps only the value blocks stored under the '
+                    'names of its operands\' areas (`%s`): the blocks of areas '
+                    'produced by an intersection, a difference or simplify() '
+                    'are stored under the names of the areas they came from, '
+                    'so their cells come out blank' % (
+                        name, norm_src(n)[:80]), file=g.module.rel,
+                    function=g.qualname, line=n.lineno)
+        else:
+            rr.ok('Ranges.%s passes on all value blocks of both operands'
+                  % name, '%s:%d' % (RANGES, f.lineno))
+    return rr
+
+
 def run(ctx):
     S = ctx.soft
     from .c17 import rule_global
@@ -1195,4 +1249,4 @@ def run(ctx):
                          only=lambda f: f.module.rel == RANGES)
     return [S(rule_ops, ctx), S(rule_lattice, ctx), S(rule_inclusive, ctx),
             S(rule_nodup, ctx), S(rule_tuple, ctx), S(rule_value, ctx), shared,
-            S(rule_cachefill, ctx)]
+            S(rule_cachefill, ctx), S(rule_allvalues, ctx)]
